@@ -27,7 +27,7 @@ func c19Tier(tier string) c19Params {
 	if tier == "thorough" {
 		return c19Params{repoFlagSets: 6, gen: 1200, genLR: 2400, mut: 400, orders: 16, sessionLen: 24}
 	}
-	return c19Params{repoFlagSets: 1, gen: 60, genLR: 140, mut: 30, orders: 6, sessionLen: 16}
+	return c19Params{repoFlagSets: 1, gen: 90, genLR: 280, mut: 36, orders: 6, sessionLen: 16}
 }
 
 // c19Replay is the replay file body: a list of sessions (each run in a fresh
